@@ -43,6 +43,9 @@ def materialise(spec):
         return (np.arange(int(np.prod(shape)), dtype=np.float64).reshape(shape) + 1.0) * scale
     if kind == "ones":
         return np.ones(shape, dtype=np.float64) * scale
+    if kind == "derived":
+        # produced during the run (e.g. by an in-place Wavefront.pad2d); placeholder until then
+        return np.zeros(shape, dtype=np.complex128)
     raise ValueError(f"unknown array kind {kind}")
 
 
